@@ -62,9 +62,9 @@ Ltac use_pre H :=
 
 Lemma inv5_step_io : forall c s ch s' l,
   0 <= hw c -> Inv1 s -> Inv2 s -> Inv3 s -> Inv4 c s -> Inv5 c s ->
-  step_io c s ch = Some (s', l) -> taint s' = false -> Inv5 c s'.
+  step_io c s ch = Some (s', l) -> Inv5 c s'.
 Proof.
-  intros c s ch s' l Hhw HI1 HI2 HI3 HI4 [HJw HJr] H Ht.
+  intros c s ch s' l Hhw HI1 HI2 HI3 HI4 [HJw HJr] H.
   pose proof (existsb_wp_notify (ws s)) as Hwn. pose proof (existsb_wp_add_task s HI2) as Hwa.
   unfold Jw, Jr in HJw, HJr.
   unfold step_io in H. step_cases H; free_hyps.
@@ -101,16 +101,15 @@ Proof. destruct p; simpl; intros; try discriminate; auto. Qed.
 
 Lemma inv5_step_w : forall c s i ch s' l,
   0 <= hw c -> Inv1 s -> Inv2 s -> Inv3 s -> Inv4 c s -> Inv5 c s ->
-  step_w c s i ch = Some (s', l) -> taint s' = false -> Inv5 c s'.
+  step_w c s i ch = Some (s', l) -> Inv5 c s'.
 Proof.
-  intros c s i ch s' l Hhw HI1 HI2 HI3 HI4 [HJw HJr] H Ht. unfold step_w in H.
+  intros c s i ch s' l Hhw HI1 HI2 HI3 HI4 [HJw HJr] H. unfold step_w in H.
   destruct (getw s i) as [pc|] eqn:Hg; [|discriminate]. unfold getw in Hg.
   assert (Hscx : w_scx pc = true -> conn s = false) by (intros Hx; eapply (i3_scx _ HI3); eauto).
   assert (Hlen : (i < length (ws s))%nat) by (apply nth_error_Some; congruence).
   pose proof (HI4 _ _ Hg) as Hi4. pose proof (i3_c3 _ HI3) as Hc3.
   unfold Jw, Jr in HJw, HJr.
   step_cases H; free_hyps; simpl in Hscx.
-  all: simpl in Ht; try discriminate Ht.
   all: unfold setw, hw_exit in *.
   all: repeat match goal with |- context [if ?b then _ else _] => destruct b eqn:? end.
   all: repeat match goal with |- context [match ?b with SWr _ => _ | SEnd => _ end] => destruct b eqn:? end.
@@ -148,9 +147,9 @@ Qed.
 
 Lemma inv5_step : forall c s ch s' l,
   0 <= hw c -> Inv1 s -> Inv2 s -> Inv3 s -> Inv4 c s -> Inv5 c s ->
-  step c s ch = Some (s', l) -> taint s' = false -> Inv5 c s'.
+  step c s ch = Some (s', l) -> Inv5 c s'.
 Proof.
-  intros c s ch s' l Hhw HI1 HI2 HI3 HI4 HI H Ht. unfold step in H. destruct ch;
+  intros c s ch s' l Hhw HI1 HI2 HI3 HI4 HI H. unfold step in H. destruct ch;
     try (eapply inv5_step_io; eauto; fail); try (eapply inv5_step_w; eauto; fail).
   - destruct (gone s); [discriminate|]. inversion H; subst. exact HI.
   - destruct (gone s); [discriminate|]. inversion H; subst. exact HI.
